@@ -395,7 +395,7 @@ mod verif_queuing {
 
     //@H name=c16_handler_on_error props=C08,C15,C16,C20 fn=QueuingMetricSinkBuilder::with_error_handler,with_capacity,build (task closure) :: the task built by build(): the wrapped sink fails => the configured handler is invoked exactly once with that error before the task returns (handler configured BEFORE the capacity)
     #[kani::proof]
-    #[kani::unwind(6)]
+    #[kani::unwind(2)]
     fn c16_handler_on_error() {
         let k: usize = kani::any();
         kani::assume(k < 2);
@@ -425,7 +425,7 @@ mod verif_queuing {
 
     //@H name=c16_handler_not_on_ok props=C08,C16,C20 fn=QueuingMetricSinkBuilder::build (task closure) :: the handler is never invoked for a metric the wrapped sink accepted
     #[kani::proof]
-    #[kani::unwind(6)]
+    #[kani::unwind(2)]
     fn c16_handler_not_on_ok() {
         WRAPPED_OUTCOME.store(0, Ordering::SeqCst);
         OK_LEN.store(kani::any(), Ordering::SeqCst);      // any byte count, 0 included: Ok is Ok
@@ -439,7 +439,7 @@ mod verif_queuing {
 
     //@H name=c16_no_handler props=C08,C15,C16,C20 fn=QueuingMetricSinkBuilder::build (task closure) :: without a handler the wrapped sink's error is discarded and the task returns normally
     #[kani::proof]
-    #[kani::unwind(6)]
+    #[kani::unwind(2)]
     fn c16_no_handler() {
         WRAPPED_OUTCOME.store(1, Ordering::SeqCst);
         let q = QueuingMetricSink::from(PlainSink);
